@@ -1,5 +1,6 @@
 /* interface of the generated wire-layout file (lib/wire.py gen_c), for ir2c-generated C */
-u32 wl_total(void); u32 wl_full(void); u32 wl_nvals(void); u32 wl_pristine(void);
+u32 wl_total(void); u32 wl_full(void); u32 wl_nvals(void); u32 wl_pristine(void); u32 wl_concrete_strings(void);
 void wl_encode(u8 * V, u8 * b);
+const void * wl_fields_ptr(void); const void * wl_msgs_ptr(void); const void * wl_lens_ptr(void); const void * wl_subs_ptr(void); u32 wl_nmsgs_fn(void);
 /* field-name hashing: names are job constants, any deterministic function serves (the hash decides bucket placement only; iteration order is insertion order) */
 static inline u32 ir2c_hash32(u8 *p, u64 n, u32 seed) { u32 h = seed; for (u64 i = 0; i < n; i++) h = h * 31u + p[i]; return h; }
